@@ -106,6 +106,8 @@ def build(sm: SourceModel, f: Func) -> SchemeModel:
             break
         if isinstance(st, ast.Assign) and len(st.targets) == 1 and isinstance(st.targets[0], ast.Name):
             pre[st.targets[0].id] = st.value
+        elif isinstance(st, ast.AnnAssign) and isinstance(st.target, ast.Name) and st.value is not None:
+            pre[st.target.id] = st.value
         elif isinstance(st, ast.If):
             for s2 in st.body:
                 if isinstance(s2, ast.Assign) and len(s2.targets) == 1 and isinstance(s2.targets[0], ast.Name):
@@ -214,7 +216,7 @@ def _symbol_terms(t) -> list:
 
 
 DIFF = ("fn", "diff", (te.atom("EXPR"), te.atom("STATE")))
-LIN_NAME = te.mk_add([te.atom("XNAME"), te.atom("'_linearized'")])
+LIN_NAME = te._mk_cat([te.atom("XNAME"), te.atom("'_linearized'")])
 LIN = ("fn", "Symbol", (LIN_NAME,))
 
 
